@@ -136,6 +136,28 @@ class KflBounds(H.Contract):
           prod = P.const(1)
           for d in range(D):
             prod = prod * E.pmax(*[E.pabs(w(i, u, d, t)) for i in range(L)])
+          if D >= 2:
+            # staged route (the direct nonlinear goal is slow for 2 dims and times out for 3): with M = prod_d max_i |w0|,
+            # F = max(M, 1), r = F^(1/D): every |out| is |w0| / r, hence the product is M / r^D = M / F <= 1
+            from vt import lemmas as LM
+            ms = [E.pmax(*[E.pabs(w0(i, u, d, t)) for i in range(L)]) for d in range(D)]
+            M = P.const(1)
+            for m_ in ms:
+              M = M * m_
+            F = E.pmax(M, 1)
+            r = tfc._root(F, D)
+            LM.inverse(r)
+            LM.inverse_power(r, D)
+            ir = E.inv(r)
+            cl.append(('have:root>0[u%d,t%d]' % (u, t), r > 0))
+            for d in range(D):
+              for i in range(L):
+                cl.append(('have:|out|==|w|/r[i%d,u%d,d%d,t%d]' % (i, u, d, t),
+                           E.pabs(w(i, u, d, t)).eq(E.pabs(w0(i, u, d, t)) * ir)))
+              cl.append(('have:max|out|==max|w|/r[u%d,d%d,t%d]' % (u, d, t),
+                         E.pmax(*[E.pabs(w(i, u, d, t)) for i in range(L)]).eq(ms[d] * ir)))
+            LM.nonneg_product(F - M, ir ** D)
+            cl.append(('have:product==M/r^D[u%d,t%d]' % (u, t), prod.eq(M * (ir ** D))))
           cl.append(('product-of-maxima<=1[u%d,t%d]' % (u, t), prod <= 1))
           # a common positive factor per (unit, term): signs and orderings survive
           for d in range(D):
